@@ -84,13 +84,14 @@ StripLeaf(it) == SubSeq(it, 1, Len(it) - 1)
 
 Mutable == {"w", "mw", "rsm", "csm"}
 
-\* contents of member k afterwards, as predicted
-ExpAfter(ev, k, visited) ==
+\* contents of member k afterwards, as predicted; inc(i) = how often the item at index i
+\* was handed out (every hand-out of a mutable member writes value + 1)
+ExpAfter(ev, k, visited, inc(_)) ==
   LET m == Mem(ev)[k] IN
   IF m.k = "dr" THEN SelectSeq(m.vals, LAMBDA p : p[1] \notin visited)
   ELSE IF m.k \in Mutable
        THEN [j \in 1..Len(m.vals) |-> IF m.vals[j][1] \in visited
-                                      THEN <<m.vals[j][1], <<m.vals[j][2][1], m.vals[j][2][2] + 1>>>>
+                                      THEN <<m.vals[j][1], <<m.vals[j][2][1], m.vals[j][2][2] + inc(m.vals[j][1])>>>>
                                       ELSE m.vals[j]]
        ELSE m.vals
 
@@ -105,18 +106,38 @@ Check(ev) ==
       got == IF ev.variant = "split" THEN [j \in 1..Len(ev.items) |-> StripLeaf(ev.items[j])] ELSE ev.items
       itemsBad == IF ev.variant = "lend_get" THEN FALSE
                   ELSE IF par THEN ~SameMultiset(got, exp) ELSE got # exp
+      got1(j) == IF ev.gets[j][3] # <<>> THEN 1 ELSE 0
+      got2(j) == IF Len(ev.gets[j]) >= 4 /\ ev.gets[j][4] # <<>> THEN 1 ELSE 0
       visited == IF ev.variant = "lend_get"
-                 THEN {ev.gets[j][1][1] : j \in {x \in 1..Len(ev.gets) : ev.gets[x][3] # <<>>}}
+                 THEN {ev.gets[j][1][1] : j \in {x \in 1..Len(ev.gets) : got1(x) + got2(x) > 0}}
                  ELSE res
-      afterBad == {k \in 1..Len(Mem(ev)) : HasAfter(Mem(ev)[k]) /\ ev.after[k] # ExpAfter(ev, k, visited)}
-      \* lending get(entity): an item exactly when the entity is alive and in the join
+      \* several probed handles may share an index (a dead handle and the index's current owner)
+      RECURSIVE SumInc(_, _)
+      SumInc(i, j) == IF j > Len(ev.gets) THEN 0
+                      ELSE (IF ev.gets[j][1][1] = i THEN got1(j) + got2(j) ELSE 0) + SumInc(i, j + 1)
+      inc(i) == IF ev.variant = "lend_get" THEN SumInc(i, 1) ELSE 1
+      afterBad == {k \in 1..Len(Mem(ev)) : HasAfter(Mem(ev)[k]) /\ ev.after[k] # ExpAfter(ev, k, visited, inc)}
+      \* lending get(entity): an item exactly when the entity is alive and in the join;
+      \* get_unchecked(index): an item exactly when the index is in the join.  The probes run one
+      \* after the other and every hand-out of a mutable member writes value + 1, so the value a
+      \* probe sees is the original one plus the hand-outs at the same index before it.
+      RECURSIVE Prior(_, _)
+      Prior(j, x) == IF x >= j THEN 0
+                     ELSE (IF ev.gets[x][1][1] = ev.gets[j][1][1] THEN got1(x) + got2(x) ELSE 0) + Prior(j, x + 1)
+      bumpBy(it, n) == [k \in 1..Len(it) |-> IF Mem(ev)[k].k \in Mutable /\ it[k] # <<>> THEN <<it[k][1], it[k][2] + n>> ELSE it[k]]
       getsBad == {j \in 1..Len(ev.gets) :
                     LET h == ev.gets[j][1] alive == ev.gets[j][2] g == ev.gets[j][3]
-                        want == IF alive /\ h[1] \in res THEN ExpItem(ev, h[1]) ELSE <<>>
+                        want == IF alive /\ h[1] \in res THEN bumpBy(ExpItem(ev, h[1]), Prior(j, 1)) ELSE <<>>
                     IN g # want}
+      ugetsBad == {j \in 1..Len(ev.gets) :
+                    Len(ev.gets[j]) >= 4 /\
+                    LET h == ev.gets[j][1] u == ev.gets[j][4]
+                        want == IF h[1] \in res THEN bumpBy(ExpItem(ev, h[1]), Prior(j, 1) + got1(j)) ELSE <<>>
+                    IN u # want}
   IN IF ev.variant = "skip" THEN {} ELSE
        (IF ev.panic # "" THEN {F(prop, "panic during join", ev.panic)} ELSE {})
   \cup (IF ev.panic = "" /\ itemsBad THEN {F(prop, "delivered items differ from the join of the members (got, expected)", <<got, exp>>)} ELSE {})
-  \cup (IF ev.panic = "" THEN {F(prop, "contents after the join (member, got, expected)", <<k, ev.after[k], ExpAfter(ev, k, visited)>>) : k \in afterBad} ELSE {})
+  \cup (IF ev.panic = "" THEN {F(prop, "contents after the join (member, got, expected)", <<k, ev.after[k], ExpAfter(ev, k, visited, inc)>>) : k \in afterBad} ELSE {})
   \cup (IF ev.panic = "" THEN {F("C06", "lending get by entity (entity, alive, got)", ev.gets[j]) : j \in getsBad} ELSE {})
+  \cup (IF ev.panic = "" THEN {F("C06", "lending get_unchecked by index (entity, alive, get, get_unchecked)", ev.gets[j]) : j \in ugetsBad} ELSE {})
 =============================================================================
